@@ -225,6 +225,15 @@ def r_tabletype(ctx):
         if ok and not okd:
             ok, msg = False, "the table of multipliers does not reuse the labels of the table of constraints / is not stored under the same key"
     ctx.ob("R-READER", "Function.get_class_constraints_duals", ok, msg, loc(fn, fn))
+    # the reader computes from the current tables at every call: no write to self, no stored result returned
+    from .. import effects
+    ws = [w for w in effects.writes_of(repo, fn) if w.root in ("self", "alias:self") or w.root.startswith("class:")]
+    stored = [r for r in ast.walk(fn) if isinstance(r, ast.Return) and (dotted(r.value) or "").startswith("self.")]
+    pure = not ws and not stored
+    ctx.ob("R-READER", "Function.get_class_constraints_duals::recomputed at every call", pure,
+           "reads the tables of the latest generation and keeps nothing" if pure else
+           "the reader %s: after a re-solve it can answer with the tables of an earlier solve"
+           % ("writes `%s`" % ws[0].path if ws else "returns the stored `%s`" % src(stored[0].value)), loc(fn, ws[0].node if ws else (stored[0] if stored else fn)))
     return n
 
 
@@ -248,6 +257,7 @@ def r_bypass(ctx):
                    "class constraints appended directly (%s) are %s%s%s: they carry no name identifying function / condition / pair and appear in no dual table"
                    % (src(appended)[:40] if appended is not None else "?", "" if named else "unnamed", "" if named or tabled else " and ", "" if tabled else "untabled"), em.where)
             if named:
+                _hook_name_parts(ctx, c, hook, em, [e for e in names if e[1] == var][0])
                 # the name mentions function id, the block / condition and both samples' ids
                 ev = [e for e in names if e[1] == var][0]
                 fmt = ev[2].value.args[0] if ev[2].value.args else None
@@ -263,3 +273,35 @@ def run(ctx):
     n = r_tabletype(ctx)
     r_bypass(ctx)
     ctx.floor("stores into the tables attribute", n, 3)
+
+
+def _hook_name_parts(ctx, cls, hook, em, ev):
+    """In a hook that names its constraints itself: the k-th sample id of the name derives from the k-th sample loop
+    (its point's own name, or the fallback label built from that loop's own index)."""
+    fn = hook.fn
+    loops = [l for l in ev[3] if l["kind"] == "samples"]
+    fmt = ev[2].value.args[0] if ev[2].value.args else None
+    if not (isinstance(fmt, ast.Call) and call_name(fmt) == "format"):
+        return
+    ids = []
+    for a in fmt.args:
+        if not isinstance(a, ast.Name):
+            continue
+        defs = [s for s in flow.stmts_of(fn, ast.Assign) if dotted(s.targets[0]) == a.id]
+        for k, l in enumerate(loops):
+            # x<k> = component 0 of the loop element
+            comp0 = None
+            for s in flow.stmts_of(fn, ast.Assign):
+                if isinstance(s.targets[0], ast.Tuple) and dotted(s.value) == l["element"] and len(s.targets[0].elts) == 3:
+                    comp0 = dotted(s.targets[0].elts[0])
+            if comp0 and any("%s.get_name()" % comp0 in src(d.value) for d in defs):
+                fb = [d for d in defs if "format(" in src(d.value)]
+                good = all(src(d.value).replace(" ", "").endswith(".format(%s)" % l["index"]) for d in fb)
+                ids.append((k, a.id, good, [src(d.value) for d in fb]))
+    seen = [k for k, _, _, _ in ids]
+    ok = seen == list(range(len(loops))) and all(g for _, _, g, _ in ids)
+    bad = [(nm, fb) for _, nm, g, fb in ids if not g]
+    ctx.ob("R-NAME", em.key + "::sample ids", ok,
+           "sample ids appear in loop order, each with the fallback label of its own loop index" if ok else
+           ("the fallback label of `%s` is `%s`, not built from the index of its own loop" % (bad[0][0], bad[0][1][0]) if bad else
+            "sample ids of the name appear in order %s, expected %s" % (seen, list(range(len(loops))))), em.where)
